@@ -125,17 +125,6 @@ Proof.
 Qed.
 
 (** ** one buffer reused for many messages (Reset after each message that was taken out) *)
-Fixpoint buffer_session (b : buf) (msgs : list (list op)) : list (option Z) :=
-  match msgs with
-  | [] => []
-  | ops :: rest =>
-    let '(b', ok) := run_ops b ops in
-    (if ok then Some (frame_len b') else None) :: buffer_session (reset b') rest
-  end.
-
-Definition fresh_result (lim : Z) (ops : list op) : option Z :=
-  let '(b', ok) := run_ops (new_buf lim) ops in if ok then Some (frame_len b') else None.
-
 Lemma buffer_session_independent : forall msgs b, len b = 4 ->
   buffer_session b msgs = map (fresh_result (limit b)) msgs.
 Proof.
@@ -260,51 +249,28 @@ Proof.
 Qed.
 
 (** ** the server's bounded reply path *)
-Lemma egroups_nonneg : forall g, Forall ops_nonneg g -> 0 <= egroups_size g.
-Proof.
-  induction g as [|l r IH]; intros H; [cbn; lia|].
-  inversion H as [|? ? Hl Hr]; subst. cbn [egroups_size fold_right]. fold (egroups_size r).
-  pose proof (ops_size_nonneg l Hl). specialize (IH Hr). lia.
-Qed.
-
-Lemma run_groups_fit : forall gs b clean, Forall ops_nonneg gs ->
-  over b (egroups_size gs) = false ->
-  run_groups b clean gs = (mkbuf (limit b) (len b + egroups_size gs), clean).
-Proof.
-  induction gs as [|g r IH]; intros b clean Hn Hfit.
-  - cbn [run_groups egroups_size fold_right]. destruct b as [l n]. cbn [limit len]. f_equal. f_equal. lia.
-  - inversion Hn as [|? ? Hg Hr]; subst.
-    cbn [egroups_size fold_right] in *. fold (egroups_size r) in *.
-    pose proof (ops_size_nonneg g Hg) as Hgs. pose proof (egroups_nonneg r Hr) as Hrs.
-    apply over_false in Hfit.
-    cbn [run_groups]. rewrite run_ops_spec; [|assumption|right; apply over_false; lia].
-    assert (E : over b (ops_size g) = false) by (apply over_false; lia). rewrite E.
-    rewrite IH; [|assumption|apply over_false; cbn [limit len]; lia].
-    cbn [limit len]. rewrite andb_true_r. f_equal. f_equal. lia.
-Qed.
-
-(** size of the error reply actually sent: the full header block if it fits at all, else the
-    op-id-only block *)
-Definition err_hdr (lim : Z) (r : reply) : Z :=
-  if (0 <? lim) && (lim <? 4 + rhdr r) then mhdr r else rhdr r.
-Definition err_size (lim : Z) (r : reply) : Z := 4 + err_hdr lim r + egroups_size (egroups r).
+Lemma err_ops_nonneg : forall h l, 0 <= h -> ops_nonneg l -> ops_nonneg (W h :: l).
+Proof. intros h l Hh Hl. constructor; [exact Hh|exact Hl]. Qed.
 
 Lemma send_error_fit : forall lim r, reply_ok r -> ~ rejected lim (err_size lim r) ->
   send_error (new_buf lim) r = (mkbuf lim (err_size lim r), true).
 Proof.
-  intros lim r (Hrh & Hmh & Hrb & Heg) Hfit. unfold rejected, err_size, err_hdr in Hfit.
-  pose proof (egroups_nonneg _ Heg) as Hes.
-  unfold send_error, buf_op, exceeds. cbn [new_buf limit len op_size reset].
-  unfold err_size, err_hdr. replace (rhdr r + 4) with (4 + rhdr r) by lia.
-  destruct ((0 <? lim) && (lim <? 4 + rhdr r)) eqn:E.
-  - (* full header block rejected: fall back to the op id only *)
-    cbn [reset new_buf limit len]. replace (mhdr r + 4) with (4 + mhdr r) by lia.
-    assert (E2 : (0 <? lim) && (lim <? 4 + mhdr r) = false).
+  intros lim r (Hrh & Hmh & Hrb & Heb) Hfit. unfold rejected, err_size in Hfit.
+  pose proof (ops_size_nonneg _ Heb) as Hes.
+  assert (Hne : forall h, W h :: ebody r <> []) by (intros; discriminate).
+  unfold send_error, err_size.
+  rewrite run_ops_spec; [|apply err_ops_nonneg; [lia|assumption]|left; apply Hne].
+  rewrite ops_size_cons. cbn [op_size]. unfold over. cbn [new_buf limit len].
+  replace (4 + (rhdr r + ops_size (ebody r))) with (4 + rhdr r + ops_size (ebody r)) by lia.
+  destruct ((0 <? lim) && (lim <? 4 + rhdr r + ops_size (ebody r))) eqn:E.
+  - (* the full error reply is rejected: the buffer is empty again; second attempt *)
+    change (reset (new_buf lim)) with (new_buf lim).
+    rewrite run_ops_spec; [|apply err_ops_nonneg; [lia|assumption]|left; apply Hne].
+    rewrite ops_size_cons. cbn [op_size]. unfold over. cbn [new_buf limit len].
+    assert (E2 : (0 <? lim) && (lim <? 4 + (mhdr r + ops_size (ebody r))) = false).
     { apply andb_false_iff. rewrite !Z.ltb_ge. lia. }
-    rewrite E2. rewrite run_groups_fit; [|assumption|apply over_false; cbn [limit len]; lia].
-    cbn [limit len]. first [reflexivity|f_equal; f_equal; lia].
-  - rewrite run_groups_fit; [|assumption|apply over_false; cbn [limit len]; lia].
-    cbn [limit len]. first [reflexivity|f_equal; f_equal; lia].
+    rewrite E2. f_equal. f_equal. lia.
+  - reflexivity.
 Qed.
 
 Lemma server_bounded_spec : forall lim r, reply_ok r ->
@@ -312,34 +278,27 @@ Lemma server_bounded_spec : forall lim r, reply_ok r ->
   /\ (rejected lim (reply_size r) -> ~ rejected lim (err_size lim r) ->
       server_bounded lim r = Some (FTooLarge, err_size lim r)).
 Proof.
-  intros lim r Hok. pose proof Hok as (Hrh & Hmh & Hrb & Heg).
-  assert (Hrun : (let '(b1, ok1) := buf_op (new_buf lim) (W (rhdr r)) in
-                  if ok1 then run_ops b1 (rbody r) else (b1, false))
-                 = run_ops (new_buf lim) (W (rhdr r) :: rbody r)).
-  { cbn [run_ops]. destruct (buf_op (new_buf lim) (W (rhdr r))) as [b1 ok1]. destruct ok1; reflexivity. }
-  assert (Hn : ops_nonneg (W (rhdr r) :: rbody r)) by (constructor; [unfold op_nonneg; cbn [op_size]; lia|assumption]).
+  intros lim r Hok. pose proof Hok as (Hrh & Hmh & Hrb & Heb).
+  assert (Hn : ops_nonneg (W (rhdr r) :: rbody r)) by (apply err_ops_nonneg; [lia|assumption]).
   assert (Hne : W (rhdr r) :: rbody r <> []) by discriminate.
   pose proof (run_ops_spec _ (new_buf lim) Hn (or_introl Hne)) as Hspec.
-  rewrite ops_size_cons in Hspec. cbn [op_size new_buf limit len] in Hspec.
-  unfold server_bounded.
-  destruct (buf_op (new_buf lim) (W (rhdr r))) as [b1 ok1] eqn:E1.
-  assert (Hrun' : (if ok1 then run_ops b1 (rbody r) else (b1, false))
-                  = run_ops (new_buf lim) (W (rhdr r) :: rbody r)) by exact Hrun.
-  rewrite Hrun', Hspec. unfold reply_size, rejected.
+  rewrite ops_size_cons in Hspec. cbn [op_size] in Hspec.
+  unfold server_bounded. rewrite Hspec. unfold reply_size, rejected.
   split.
   - intros Hnr.
     assert (E : over (new_buf lim) (rhdr r + ops_size (rbody r)) = false)
       by (apply over_false; cbn [new_buf limit len]; lia).
-    rewrite E. cbn [frame_len len]. f_equal. f_equal. lia.
+    rewrite E. cbn [frame_len len new_buf limit]. f_equal. f_equal. lia.
   - intros Hrej Hfit.
     assert (E : over (new_buf lim) (rhdr r + ops_size (rbody r)) = true)
       by (apply over_true; cbn [new_buf limit len]; lia).
     rewrite E. change (reset (new_buf lim)) with (new_buf lim).
     rewrite (send_error_fit lim r Hok Hfit).
-    unfold has_write_data, frame_len. cbn [len].
-    pose proof (egroups_nonneg _ Heg) as Hes.
+    unfold has_write_data, frame_len. cbn [len andb].
+    pose proof (ops_size_nonneg _ Heb) as Hes.
     assert (E4 : 4 <? err_size lim r = true).
-    { apply Z.ltb_lt. unfold err_size, err_hdr. destruct ((0 <? lim) && (lim <? 4 + rhdr r)); lia. }
+    { apply Z.ltb_lt. unfold err_size.
+      destruct ((0 <? lim) && (lim <? 4 + rhdr r + ops_size (ebody r))); lia. }
     rewrite E4. reflexivity.
 Qed.
 
